@@ -547,6 +547,18 @@ func RunCheck(opts *CheckOpts) int {
 			continue
 		}
 		r.Obligations = g.Obls
+		for ci, cr := range c.Criticals {
+			obs, err := criticalObligations(g, fn, k, ci, cr[0], cr[1])
+			if err != "" {
+				r.Err = "contract does not bind: " + err
+				break
+			}
+			g.Obls = append(g.Obls, obs...)
+		}
+		if r.Err != "" {
+			continue
+		}
+		r.Obligations = g.Obls
 		// vacuity: preconditions satisfiable; some return reachable
 		all = append(all, &Obligation{Name: ShortKey(k) + "#vacuity.pre", Kind: "vacuity", Fn: k, Clause: "requires/assumes are satisfiable", NDefs: g.entryDefs, Reach: True, Goal: True, Gen: g, MustSat: true})
 		all = append(all, g.Obls...)
@@ -1703,4 +1715,86 @@ func PatchEvidenceMutants(verifDir, prop string, total, killed int, survivors []
 	}
 	cov["mutants"] = map[string]any{"total": total, "killed": killed, "survivors": survivors, "what": "deliberate property-breaking changes of /verif/selftest/mutants/" + prop + " applied to a scratch copy of /repo; killed = this check reports a violation"}
 	writeJSON(path, ev)
+}
+
+
+// criticalObligations: structural obligation of a `critical A .. B` clause. The calls of
+// A and B must be unique in the function; every call that releases a mutex
+// (sync.Mutex/RWMutex Unlock/RUnlock, not deferred) lying on a control-flow path from the
+// call of A to the call of B fails the obligation.
+func criticalObligations(g *Gen, fn *ssa.Function, key string, ci int, from, to string) ([]*Obligation, string) {
+	type site struct {
+		b *ssa.BasicBlock
+		i int
+		in ssa.Instruction
+	}
+	calleeName := func(cc *ssa.CallCommon) string {
+		if cc.IsInvoke() {
+			return cc.Method.Name()
+		}
+		if f := cc.StaticCallee(); f != nil {
+			return f.Name()
+		}
+		return ""
+	}
+	var fromS, toS []site
+	var unlocks []site
+	for _, b := range fn.Blocks {
+		for i, in := range b.Instrs {
+			call, ok := in.(*ssa.Call)
+			if !ok {
+				continue
+			}
+			n := calleeName(&call.Call)
+			if n == from {
+				fromS = append(fromS, site{b, i, in})
+			}
+			if n == to {
+				toS = append(toS, site{b, i, in})
+			}
+			if f := call.Call.StaticCallee(); f != nil && (n == "Unlock" || n == "RUnlock") && f.Pkg != nil && f.Pkg.Pkg.Path() == "sync" {
+				unlocks = append(unlocks, site{b, i, in})
+			}
+		}
+	}
+	if len(fromS) != 1 || len(toS) != 1 {
+		return nil, fmt.Sprintf("critical %s .. %s: each must be called exactly once in %s (found %d and %d)", from, to, ShortKey(key), len(fromS), len(toS))
+	}
+	blockReach := func(a, b *ssa.BasicBlock) bool { // b reachable from a through at least one edge
+		seen := map[*ssa.BasicBlock]bool{}
+		var rec func(x *ssa.BasicBlock) bool
+		rec = func(x *ssa.BasicBlock) bool {
+			for _, s := range x.Succs {
+				if s == b {
+					return true
+				}
+				if !seen[s] {
+					seen[s] = true
+					if rec(s) {
+						return true
+					}
+				}
+			}
+			return false
+		}
+		return rec(a)
+	}
+	reach := func(a, b site) bool {
+		if a.b == b.b && a.i < b.i {
+			return true
+		}
+		return blockReach(a.b, b.b)
+	}
+	var out []*Obligation
+	n := 0
+	for _, u := range unlocks {
+		if reach(fromS[0], u) && reach(u, toS[0]) {
+			out = append(out, &Obligation{Name: fmt.Sprintf("%s#critical.%d.%d", ShortKey(key), ci, n), Kind: "critical", Fn: key, Clause: fmt.Sprintf("critical: the mutex is not released between the call of %s and the call of %s", from, to), Pos: g.pos(u.in.Pos()), Reach: True, Goal: False, Gen: g, NDefs: 0})
+			n++
+		}
+	}
+	if n == 0 {
+		out = append(out, &Obligation{Name: fmt.Sprintf("%s#critical.%d", ShortKey(key), ci), Kind: "critical", Fn: key, Clause: fmt.Sprintf("critical: the mutex is not released between the call of %s and the call of %s", from, to), Reach: True, Goal: True, Gen: g, NDefs: 0})
+	}
+	return out, ""
 }
